@@ -567,6 +567,11 @@ def _axis_rule(ctx, repo, rm, rd):
     sb = repo.cls('cirq.sim.simulator_base.SimulatorBase')
     fn6 = sb.methods.get('_run')
     pads = [f for f in ast.walk(fn6) if isinstance(f, ast.FunctionDef) and f is not fn6 and len(f.args.args) == 1] if fn6 is not None else []
+    if not pads and fn6 is not None:
+        # the helper may have been lifted to module level: a one-argument private function that _run calls and that allocates with np.zeros
+        from . import simrules as _sr6
+        pads = [f for f in _sr6.own_callees(repo, sb, fn6, depth=1) if len(f.args.args) == 1
+                and any(isinstance(c, ast.Call) and call_name(c) in ('zeros', 'empty') for c in ast.walk(f))]
     if not pads:
         raise AnalysisError('SimulatorBase._run: the padding helper vanished')
 
@@ -590,14 +595,18 @@ def _axis_rule(ctx, repo, rm, rd):
     # S6b  SimulatorBase._run: what one repetition contributes per key is a block (instances, qubits)
     def s6b():
         bad, seen = [], 0
-        for lp in [l for l in ast.walk(fn6) if isinstance(l, ast.For) and isinstance(l.iter, ast.Call) and isinstance(l.iter.func, ast.Attribute) and l.iter.func.attr == 'items'
+        from . import simrules as _sr6b
+        for lp in [l for f_ in [fn6] + _sr6b.own_callees(repo, sb, fn6, depth=1) for l in ast.walk(f_)
+                   if isinstance(l, ast.For) and isinstance(l.iter, ast.Call) and isinstance(l.iter.func, ast.Attribute) and l.iter.func.attr == 'items'
                    and isinstance(l.iter.func.value, ast.Attribute) and l.iter.func.value.attr in ('records', 'channel_records')]:
             if not (isinstance(lp.target, ast.Tuple) and len(lp.target.elts) == 2 and isinstance(lp.target.elts[1], ast.Name)):
                 raise Unknown('loop over the per-key records has an unexpected target')
             vname = lp.target.elts[1].id
             per_key = Lst('I', Lst('Q', 0)) if lp.iter.func.value.attr == 'records' else Lst('I', 0)
             for c in ast.walk(lp):
-                if isinstance(c, ast.Call) and isinstance(c.func, ast.Attribute) and c.func.attr == 'append' and isinstance(c.func.value, ast.Subscript) and c.args:
+                if isinstance(c, ast.Call) and isinstance(c.func, ast.Attribute) and c.func.attr == 'append' and c.args and (
+                        isinstance(c.func.value, ast.Subscript) or (isinstance(c.func.value, ast.Call) and isinstance(c.func.value.func, ast.Attribute)
+                                                                    and c.func.value.func.attr == 'setdefault')):
                     it = AxisInterp({vname: per_key})
                     def norm(x):
                         # a list literal with one element is a unit axis
